@@ -7,6 +7,8 @@
 //!             recv_timeout ...): the cancel then also races with the timer of the call.
 //! MAYV_OTHERS = number of other parties (default 2: a coroutine and a thread), MAYV_ROUNDS their rounds.
 //! MAYV_BY=0: no bystander / heir coroutines.
+//! MAYV_AIM=1: the canceller fires when the k-th (seeded) post / send / unlock / notify of the other parties is about to happen
+//!             plus a few hook points, instead of at a seeded virtual time: the cancel races with the hand-off.
 //! MAYV_SELARMS=timed (default): the arms of the select variant are sleep / SyncFlag::wait_timeout / Semphore::wait_timeout;
 //!             =recv: two arms block in mpsc::Receiver::recv (REPLAY of a finding: the cancelled select never ends, see
 //!             props/C09.json; not part of the checked variants).
@@ -89,6 +91,9 @@ impl Drop for Owned {
     }
 }
 
+/// number of events the target may be waiting for that are about to happen (a post / send / unlock / notify is the next
+/// thing its issuer does): MAYV_AIM=1 lets the canceller fire right then, so that the cancel races with the hand-off
+static EVENTS: AtomicUsize = AtomicUsize::new(0);
 /// set by main right before it calls cancel() on the target
 static CANCEL_REQ: AtomicBool = AtomicBool::new(false);
 
@@ -155,6 +160,7 @@ fn main() {
     let with_by = envn("MAYV_BY", 1) == 1;
     let selarms = envs("MAYV_SELARMS", "timed");
     let sel_mutex = envs("MAYV_SELOTHERS", "read") == "mutex";
+    let aim = envn("MAYV_AIM", 0) == 1;
     run(cfg, move |ctx| {
         let prim: &'static str = if prim == "mix" { PRIMS[(ctx.rand() % PRIMS.len() as u64) as usize] } else { PRIMS.iter().copied().find(|p| *p == prim).expect("MAYV_PRIM") };
         let mx = Arc::new(may::sync::Mutex::new(0u32));
@@ -222,10 +228,12 @@ fn main() {
                             let o = Occ::enter(&occ, "rwlock");
                             may::coroutine::yield_now();
                             drop(o);
+                            EVENTS.fetch_add(1, Ordering::SeqCst);
                             drop(g);
                         }
                         "sem" => {
                             sem.wait();
+                            EVENTS.fetch_add(1, Ordering::SeqCst);
                             sem.post();
                         }
                         "mpmc" => {
@@ -245,6 +253,7 @@ fn main() {
                             *g += 1;
                             may::coroutine::yield_now();
                             drop(o);
+                            EVENTS.fetch_add(1, Ordering::SeqCst);
                             if prim == "cond" {
                                 cv.notify_one();
                             }
@@ -432,6 +441,7 @@ fn main() {
             let mut conns = vec![];
             for i in 0..6u32 {
                 c.sleep_ns([0u64, 300_000, 1_000_000][(c.rand() % 3) as usize]);
+                EVENTS.fetch_add(1, Ordering::SeqCst);
                 match prim {
                     "sem" => feeder_sem.post(),
                     "chan" => {
@@ -476,9 +486,22 @@ fn main() {
         while reached.load(Ordering::SeqCst) == 0 {
             ctx.yield_now();
         }
-        ctx.sleep_ns(when * 700_000);
-        for _ in 0..(ctx.rand() % 40) {
-            ctx.point();
+        if aim {
+            // fire right when the k-th event the target may be waiting for is about to happen
+            let k = 1 + (ctx.rand() % 5) as usize;
+            let mut guard = 0;
+            while EVENTS.load(Ordering::SeqCst) < k && guard < 4000 {
+                ctx.yield_now();
+                guard += 1;
+            }
+            for _ in 0..(ctx.rand() % 14) {
+                ctx.point();
+            }
+        } else {
+            ctx.sleep_ns(when * 700_000);
+            for _ in 0..(ctx.rand() % 40) {
+                ctx.point();
+            }
         }
         let rounds_at_cancel = TROUNDS.load(Ordering::SeqCst);
         CANCEL_REQ.store(true, Ordering::SeqCst);
@@ -512,8 +535,9 @@ fn main() {
             }));
         }
         // others must all finish: whatever raced with the cancel was passed on
+        let extra_posts = others as u64 * rounds + 2;
         if prim == "sem" {
-            for _ in 0..(others as u64 * rounds + 2) {
+            for _ in 0..extra_posts {
                 sem.post();
             }
         }
@@ -539,6 +563,16 @@ fn main() {
         }
         if rw.try_write().is_err() {
             ctx.fail("rwlock still held after the cancelled coroutine was joined".into());
+        }
+        // permits are conserved across the cancellation: every wait of the others and of the target is followed by its
+        // own post, a permit handed to the target while it was being cancelled is posted again by the Canceled branch, so
+        // at the end the value is exactly what the feeder and main have posted
+        if prim == "sem" {
+            let v = sem.get_value();
+            let exp = 6 + extra_posts as usize;
+            if v != exp {
+                ctx.fail(format!("semaphore value is {v} at the end, {exp} permits were posted and every successful wait posted again: a permit handed to the cancelled waiter was lost or duplicated"));
+            }
         }
         let (m, d) = (MADE.load(Ordering::SeqCst), DROPS.load(Ordering::SeqCst));
         if m != d {
